@@ -109,6 +109,9 @@ def judge(res, code, g, resp):
     if not complete:
         res.inconc("reference-incomplete")
         return
+    if any("opaque-jump-target" in p.flags for p in paths):
+        res.inconc("reference-cannot-resolve-jump-target")
+        return
     real_paths = [p for p in paths if p.end != "error-branch"]
     if any(v is None for p in real_paths for v in p.stack):
         res.inconc("non-constant-data")
